@@ -186,6 +186,34 @@ def run(ctx):
             for i in ifs:
                 z = [x for b in i.orelse for x in ast.walk(b) if isinstance(x, ast.Assign) and isinstance(x.value, ast.Constant) and x.value.value == 0]
                 res.check(bool(z), "G-RATIO", f, norm(i.test), "zero-otherwise", "sizes without hyperedges do not yield 0", loc(v.fi, i))
+    # ---- E-SHAREDVAL: values stored into an accumulator inside a loop are created in that very iteration
+    res.rules["E-SHAREDVAL"] = "a mutable object stored as the value of several accumulator entries is created per entry (no one set shared between keys) when entries are later updated in place"
+    for d in SIBLINGS:
+        v = ctx.view(d)
+        f = v.fi.short
+        accs = _accumulators(v.fi.node)
+        inplace = set()
+        for n in ast.walk(v.fi.node):
+            if isinstance(n, ast.Call) and isinstance(n.func, ast.Attribute) and n.func.attr in ("update", "add", "append", "extend", "discard", "remove", "intersection_update", "difference_update") and isinstance(n.func.value, ast.Subscript) and isinstance(n.func.value.value, ast.Name) and n.func.value.value.id in accs:
+                inplace.add(n.func.value.value.id)
+            if isinstance(n, ast.AugAssign) and isinstance(n.target, ast.Subscript) and isinstance(n.target.value, ast.Name) and n.target.value.id in accs and isinstance(n.op, (ast.BitOr, ast.BitAnd, ast.Sub)):
+                inplace.add(n.target.value.id)
+        n_checked = 0
+        for n in ast.walk(v.fi.node):
+            if isinstance(n, ast.Assign) and isinstance(n.targets[0], ast.Subscript) and isinstance(n.targets[0].value, ast.Name) and n.targets[0].value.id in accs and isinstance(n.value, ast.Name):
+                acc, val = n.targets[0].value.id, n.value.id
+                loops = v.enclosing_all(n, (ast.For, ast.While))
+                if not loops:
+                    continue
+                inner = loops[0]
+                defs = [m for m in ast.walk(v.fi.node) if isinstance(m, ast.Assign) and isinstance(m.targets[0], ast.Name) and m.targets[0].id == val]
+                mutable = [m for m in defs if isinstance(m.value, (ast.Set, ast.List, ast.Dict, ast.SetComp, ast.ListComp, ast.DictComp)) or (isinstance(m.value, ast.Call) and isinstance(m.value.func, ast.Name) and m.value.func.id in ("set", "list", "dict"))]
+                outside = [m for m in mutable if not any(m is x for x in ast.walk(inner))]
+                if mutable:
+                    n_checked += 1
+                    bad = bool(outside) and acc in inplace
+                    res.check(not bad, "E-SHAREDVAL", f, norm(n), acc, f"`{val}` is created once outside the loop over the keys and stored under each of them, and entries of `{acc}` are updated in place elsewhere: an update of one entry leaks into all entries sharing the object", loc(v.fi, n))
+        res.ok("E-SHAREDVAL", f, f"{n_checked} aliasing stores examined; in-place updated accumulators: {sorted(inplace)}", "scan", loc(v.fi, v.fi.node))
     # exact: swapped pair
     v = ctx.view("reciprocity.exact_reciprocity")
     sw = [n for n in walk_no_nested(v.fi.node) if isinstance(n, ast.Tuple) and len(n.elts) == 2 and all(isinstance(e, ast.Subscript) and isinstance(e.slice, ast.Constant) for e in n.elts) and [e.slice.value for e in n.elts] == [1, 0] and norm(n.elts[0].value) == norm(n.elts[1].value)]
